@@ -317,7 +317,11 @@ func execCreate(c CreateCase) (res evid.Result) {
 		// the new face must transmit: hand it a packet as forwarding would, read the datagrams
 		// UDP may drop under a burst: keep the probe to a few dozen datagrams
 		size := c.Probe
-		if payload := wantMTU - 54; size > 30*payload {
+		payload := wantMTU - 54
+		if payload < 2 {
+			payload = 2
+		}
+		if size > 30*payload {
 			size = 30 * payload
 		}
 		name := mkName("/probe/created")
@@ -427,6 +431,7 @@ func TestC17FaceCreate(t *testing.T) {
 }
 
 func TestC17FaceCreateReplay(t *testing.T) {
+	replayShim(t, "TestC17FaceCreate")
 	evid.Replay(t, "TestC17FaceCreate", execCreate)
 }
 
